@@ -90,6 +90,7 @@ type Obl struct {
 }
 
 type FnCtx struct {
+	noPanicIf string // entry-state condition under which no panic may be reached (contract directive nopanic_if)
 	eng   *Engine
 	fn    *ssa.Function
 	c     *Contract
